@@ -9,10 +9,28 @@ import (
 	"reflect"
 	"strconv"
 	"strings"
+	"sync/atomic"
 	"time"
 
 	"git.metabarcoding.org/obitools/obitools4/obitools4/pkg/obifp"
+	log "github.com/sirupsen/logrus"
 )
+
+// c20WarnHook counts the logrus warnings (log.Warnf of the narrowing casts and of LeftShift64/RightShift64) logged
+// while a case runs: the warning is an outcome component of the model (` warn=<k>` suffix of the result line).
+type c20WarnHook struct{}
+
+var c20Warns atomic.Int64
+var c20WarnMsg atomic.Value // last message
+
+func (c20WarnHook) Levels() []log.Level { return []log.Level{log.WarnLevel} }
+func (c20WarnHook) Fire(e *log.Entry) error {
+	c20Warns.Add(1)
+	c20WarnMsg.Store(e.Message)
+	return nil
+}
+
+func init() { log.AddHook(c20WarnHook{}) }
 
 type c20 struct{}
 
@@ -472,9 +490,45 @@ func (c20) Exec(c string) (string, []Fail) {
 	}
 	stat("op:" + f[0] + "." + op)
 	c20BranchStats(limbs, op, a)
+	// main() sets the logrus level to Panic (and the output to io.Discard): warnings reach the hook only at Warn level
+	log.SetLevel(log.WarnLevel)
+	c20Warns.Store(0)
 	res := guardT(2*time.Second, func() string { return c20Run(limbs, op, a) })
+	warns := c20Warns.Load()
+	log.SetLevel(log.PanicLevel)
 	stat("outcome:" + strings.Fields(res)[0])
-	return res, c20Oracle(limbs, f[0], op, a, res)
+	fails := c20Oracle(limbs, f[0], op, a, res)
+	fails = append(fails, c20WarnOracle(limbs, f[0], op, a, res, warns)...)
+	if warns > 0 && res != "bad-op" {
+		stat("warn:" + f[0] + "." + op)
+		res += fmt.Sprintf(" warn=%d", warns)
+	}
+	return res, fails
+}
+
+// c20WarnOracle: the narrowing casts log one "overflow" warning iff the value does not fit the target width
+// (the doc comments of Uint128.Uint64 / Uint256.Uint64 / Uint256.Uint128: "A Warning will be logged if an overflow
+// occurs"); evaluated with math/big on the real code, independently of the model.
+func c20WarnOracle(limbs int, w, op string, a []uint64, res string, warns int64) []Fail {
+	tl := map[string]int{"to64": 1, "to128": 2, "to256": 4}[op]
+	if tl == 0 || res == "bad-op" || len(a) != limbs {
+		return nil
+	}
+	fits := toBig(a[:limbs]).BitLen() <= 64*tl
+	want := int64(1)
+	if fits {
+		want = 0
+	}
+	if warns != want {
+		return []Fail{{Sig: w + "." + op + ".warn", Text: fmt.Sprintf("value fits the target width: %v, expected %d overflow warning(s), %d logged", fits, want, warns)}}
+	}
+	if warns == 1 {
+		msg, _ := c20WarnMsg.Load().(string)
+		if !strings.Contains(msg, "overflow") {
+			return []Fail{{Sig: w + "." + op + ".warn", Text: "the warning logged is not an overflow warning: " + msg}}
+		}
+	}
+	return nil
 }
 
 func c20B(b bool) string {
